@@ -253,7 +253,9 @@ class Build:
             must(['llvm-as-14', d + '/lib.ll', '-o', d + '/lib.bc']); lib_bc = d + '/lib.bc'
             refs, gl = self._refgraph(t2)
         srefs, sgl = self._refgraph(stext)
-        R = dict(refs); R.update(srefs); G = dict(gl); G.update(sgl)
+        R = dict(refs); R.update(srefs)
+        G = dict(gl)
+        for k_, v_ in sgl.items(): G[k_] = set(G.get(k_, ())) | set(v_)   # the shim only declares library globals (vtables!): keep the library's references
         ctors = self._needed_ctors(R, G, entries, self.ctor_names + sctors) if u.ctors else []
         must(['llvm-link-14', lib_bc, d + '/shim.ll'] + link_extra + ['-o', d + '/u0.bc'])
         must(['opt-14', '-passes=internalize,globaldce', '-internalize-public-api-list=' + ','.join(entries + ctors), d + '/u0.bc', '-S', '-o', d + '/u3.ll'])
